@@ -62,7 +62,7 @@ def read_impl(text, source_file=None, **kw):
     from shexer.io.graph.yielder.nt_triples_yielder import NtTriplesYielder
     y = NtTriplesYielder(raw_graph=text, **kw) if source_file is None else NtTriplesYielder(source_file=source_file, **kw)
     old = signal.signal(signal.SIGALRM, _alarm)
-    signal.alarm(30)
+    signal.alarm(30 if read_impl.hangs < 2 else 2)     # after two hangs the verdict is in: do not spend 30 s on each further line
     try:
         out = []
         for s, p, o in y.yield_triples():
@@ -71,12 +71,16 @@ def read_impl(text, source_file=None, **kw):
             out.append((so, str(p), oo))
         return ('ok', out, y.error_triples)
     except Hang:
+        read_impl.hangs += 1
         return ('hang', [], 0)
     except Exception as e:
         return ('exc:%s:%s' % (type(e).__name__, str(e)[:80]), [], 0)
     finally:
         signal.alarm(0)
         signal.signal(signal.SIGALRM, old)
+
+
+read_impl.hangs = 0
 
 
 def rdflib_ok(line, st):
